@@ -200,6 +200,7 @@ public:
       departedRoots.push_back(c->root);
       if (c->idx == witnessConn) {witnessOutstanding = -1;}
       if (orc.marks) CheckMarks("after session departure");
+      if ((orc.isolation)&&(c->departedHow.empty())) Fail("session_disconnected_without_cause", "session " + c->root + " was disconnected by the server although its connection was never closed, cut or reset; last command: " + lastCmdDesc);
       if (orc.isolation) CheckDepartureCleanup(c);
    }
    // client c reads and interprets whatever has arrived
@@ -379,6 +380,7 @@ public:
             if ((c->idx == witnessConn)&&(tag == witnessOutstanding)) {witnessOutstanding = -1; witnessPingSentAtStep = -1; st.inc("witness_pongs");}
          }
          break;
+         case PR_RESULT_ERRORACCESSDENIED: st.inc("p.access_denied_bounces"); break;
          case ROUTED_WHAT:
          {
             Conn::RoutedRx rx; rx.seq = m()->GetInt32("seq", -1); rx.fromConn = m()->GetInt32("from", -1); rx.sessionField = m()->GetCstr(PR_NAME_SESSION, "<none>"); rx.fromSid = 0;
@@ -493,11 +495,7 @@ public:
          if ((isMark)&&(inside(path))) continue;
          Fail("foreign_session_state_changed", "a command of session " + c->root + " (" + lastCmdDesc + ") added to another session's state: " + kv.first);
       }
-      // nobody else may have been disconnected by this command (no session here holds the kick privilege)
-      for (auto & cp : conns) if ((cp)&&(cp->up)&&(cp->idx != c->idx)&&(cp->session())&&(cp->session()->IsAttachedToServer())&&(IsLameDuck(cp.get())))
-         Fail("foreign_session_disconnected", "a command of session " + c->root + " (" + lastCmdDesc + ") caused session " + cp->root + " to be disconnected");
    }
-   bool IsLameDuck(Conn * c) {return c->session()->IsConnected() == false;}
    void CheckDepartureCleanup(Conn * c)
    {
       // evaluated right after the server step in which c's session was detached
